@@ -132,7 +132,7 @@ class Recorder:
             outs = _result_arrays(out)
             self._prev_out = (name, outs) if outs else None
             plain = _is_plain(f, name)      # not a bound method / lambda: owns no caller-visible state
-            if outs and (arrs or plain) and not any(kk in OUT_ARGS for kk in k):
+            if (outs or (plain and _result_arrays(out, True))) and (arrs or plain) and not any(kk in OUT_ARGS for kk in k):
                 key = (name, id(getattr(f, '__code__', f)), tuple((v.shape, str(v.dtype)) for v in arrs), tuple(sorted(k)),
                        tuple(repr(v)[:40] for v in list(a) + list(k.values()) if not isinstance(v, np.ndarray)) if not arrs else ())
                 if key not in self._hy_seen:
@@ -145,12 +145,13 @@ class Recorder:
         return out
 
     def _hygiene_variants(self, f, a, k, out, name, rng_state):
-        ref = [o.copy() for o in _result_arrays(out)]
+        ext = _is_plain(f, name)
+        ref = [o.copy() for o in _result_arrays(out, ext)]
         # the identical call again (same global RNG state): the answer depends on the arguments only
         self.evals += 1
         try:
             np.random.set_state(rng_state)
-            rep = _result_arrays(f(*[_map_arrays(v, np.copy) for v in a], **{kk: _map_arrays(v, np.copy) for kk, v in k.items()}))
+            rep = _result_arrays(f(*[_map_arrays(v, np.copy) for v in a], **{kk: _map_arrays(v, np.copy) for kk, v in k.items()}), ext)
         except Exception as e:   # noqa
             self.violation(f'{name}:hygiene:not-repeatable', f'{name} raised {type(e).__name__} when the identical call was repeated: {e}')
             return
@@ -159,7 +160,7 @@ class Recorder:
             return
         # (e) a plain function's result belongs to the caller: scribbling on it must not change what the next identical call returns
         if _is_plain(f, name):
-            outs = _result_arrays(out)
+            outs = _result_arrays(out, True)
             saved = [o.copy() for o in outs]
             inputs_before = [_map_arrays(v, np.copy) for v in a]
             kw_before = {kk: _map_arrays(v, np.copy) for kk, v in k.items()}
@@ -172,7 +173,7 @@ class Recorder:
                 if touched:
                     self.evals += 1
                     np.random.set_state(rng_state)
-                    again = _result_arrays(f(*inputs_before, **kw_before))
+                    again = _result_arrays(f(*inputs_before, **kw_before), ext)
                     if not _close_lists(again, ref):
                         self.violation(f'{name}:hygiene:result-shared-with-internal-state',
                                        f'after the caller wrote into the array returned by {name}, the next identical call returns the modified values (the result aliases a cache / module-level table)')
@@ -191,7 +192,7 @@ class Recorder:
             self.evals += 1
             try:
                 np.random.set_state(rng_state)
-                o2 = _result_arrays(f(*fa, **fk))
+                o2 = _result_arrays(f(*fa, **fk), ext)
                 if not _close_lists(o2, ref):
                     self.violation(f'{name}:hygiene:memory-layout', f'{name} gives a different result for Fortran-ordered copies of its array arguments')
             except Exception as e:   # noqa
@@ -207,11 +208,11 @@ class Recorder:
                     fresh_k = {kk: _map_arrays(v, lambda z: _swap(z, fl, flipped)) for kk, v in k.items()}
                     self.evals += 2
                     np.random.set_state(rng_state)
-                    want = [o.copy() for o in _result_arrays(f(*fresh_a, **fresh_k))]
+                    want = [o.copy() for o in _result_arrays(f(*fresh_a, **fresh_k), ext)]
                     for v, nv in zip(fl, flipped):
                         v[...] = nv
                     np.random.set_state(rng_state)
-                    got = _result_arrays(f(*a, **k))
+                    got = _result_arrays(f(*a, **k), ext)
                     if not _close_lists(got, want):
                         self.violation(f'{name}:hygiene:stale-for-reused-buffer',
                                        f'{name} called again after its argument buffer was overwritten in place answers for the old content')
@@ -382,12 +383,18 @@ def _same_array(a, b):
         return True
 
 
-def _result_arrays(out):
-    """plain ndarray results only (a stateful object returned by a method is expected to change later)"""
+def _result_arrays(out, ext=False):
+    """plain ndarray results (a stateful object returned by a method is expected to change later); with ext=True, used only
+    for the result comparisons of plain module-level functions, also the .data array of a returned container object"""
     if isinstance(out, np.ndarray):
         return [out] if out.size else []
     if isinstance(out, (tuple, list)):
-        return [o for o in out if isinstance(o, np.ndarray) and o.size]
+        r = [o for o in out if isinstance(o, np.ndarray) and o.size]
+        if ext:
+            r += [o.data for o in out if not isinstance(o, np.ndarray) and isinstance(getattr(o, 'data', None), np.ndarray) and o.data.size]
+        return r
+    if ext and isinstance(getattr(out, 'data', None), np.ndarray) and out.data.size:
+        return [out.data]
     return []
 
 
